@@ -287,7 +287,72 @@ func liveScenario(buf int, persistent bool, reentrant bool, churn string, c int)
 	}
 }
 
+// ---- family 4: a blocked Publish is released when the subscription (or the Pub/Sub) is closed ---------------
+
+// The only subscription holds its message unsettled (or never reads); then `how` happens:
+// "cancel" (that subscription's context), "close" (the Pub/Sub). Publish must return.
+func unblockScenario(cfg hx.GCfg, consumer, how string, c int) *explore.Scenario {
+	return &explore.Scenario{Name: fmt.Sprintf("unblock/%s/%s/%s", cfg, consumer, how), C: c, DPOR: true, DPORSeconds: 10, Body: func() {
+		g := cfg.New()
+		ctx, cancel := context.WithCancel(context.Background())
+		ch, err := g.Subscribe(ctx, "t")
+		if err != nil {
+			vs.Fail("subscribe-error", "%v", err)
+			return
+		}
+		closedSeen := false
+		go func() {
+			if consumer == "hold" {
+				if _, ok := <-ch; ok {
+					for range ch { // never settles what it got; later messages (none) would be acked
+					}
+				}
+				closedSeen = true
+			}
+		}()
+		var wg vs.WaitGroup
+		wg.Add(2)
+		go func() {
+			defer wg.Done()
+			g.Publish("t", hx.Msg("m0")) // blocks until acked, or until the subscription / Pub/Sub is closed
+		}()
+		go func() {
+			defer wg.Done()
+			if how == "cancel" {
+				cancel()
+			} else {
+				g.Close()
+			}
+		}()
+		wg.Wait() // hang = Publish not released by the closing of its only subscription
+		vs.Quiesce()
+		if consumer == "hold" && !closedSeen {
+			vs.Fail("subscription-closed", "the subscription's channel was not closed after %s", how)
+		}
+		vs.Note("released")
+		cancel()
+		g.Close()
+	}}
+}
+
 func init() {
+	for _, cfg := range hx.AllGCfg(0, 1) {
+		if !cfg.Blocking {
+			continue
+		}
+		for _, cons := range []string{"hold", "noread"} {
+			for _, how := range []string{"cancel", "close"} {
+				cfg, cons, how := cfg, cons, how
+				sc := unblockScenario(cfg, cons, how, 2)
+				reg.AddW("C05", sc.Name, reg.Quick, 3, func(t reg.Tier) *explore.Scenario {
+					if t == reg.Thorough {
+						return unblockScenario(cfg, cons, how, 3)
+					}
+					return unblockScenario(cfg, cons, how, 2)
+				})
+			}
+		}
+	}
 	addInv := func(tier reg.Tier, w int, cfg hx.GCfg, P, M int, script string, cq, ct int) {
 		sc := invScenario(cfg, P, M, script, cq)
 		reg.AddW("C05", sc.Name, tier, w, func(t reg.Tier) *explore.Scenario {
